@@ -732,8 +732,10 @@ def relevant_closure(stmts: Sequence[ast.stmt], seeds: Iterable[str], ignore: It
                 for blk in _blocks(st):
                     visit(blk, inner_ctrl)
                 continue
-            if stored_names(st) & rel or _has_jump(st):
-                new = ((_own_reads(st) | ctrl) - ignore) - rel
+            binds = bool(stored_names(st) & rel)
+            if binds or _has_jump(st):
+                # a jump / yield matters for WHEN it happens (the tests around it), not for what it carries
+                new = (((_own_reads(st) if binds else set()) | ctrl) - ignore) - rel
                 if new:
                     rel.update(new)
                     changed = True
